@@ -415,6 +415,15 @@ def r6_4(model: Model, rep: Report) -> None:
                     args.add(kwargs_of(s).get("variables", s[3][0] if s[3] else None))
         ok = len(args) == 1
     (rep.proven if ok else rep.refuted)("R6.4", construct(f, "one-set-for-all"), "" if ok else "children and parents are not all intervened with the same set", loc(f))
+    # ... and a probability term is intervened by intervening its whole distribution
+    if "yvref.c06" not in model.modules:
+        load_reference(model, "yvref.c06", "c06_ref.py")
+    PT = ("cls", "y0.dsl.Probability")
+    run_table(model, rep, [("R6.4", "y0.dsl.Probability.intervene", "intervened_term", {"self": PT, "variables": ("iter", ("cls", VARIABLE))}, (), "whole-distribution",
+                            "P(C | Pa) under do(x) is P_x(C | Pa): children and conditioning set both subscripted (through Distribution.intervene), same kind of term",
+                            {"impl_self_type": PT})],
+              "yvref.c06", lambda m, prims: (lambda: Evaluator(m, primitives=set(DSL_PRIMS) | set(prims), prim_methods={"intervene", "_new"})),
+              SetAlg(rewriter(graph_rewrite)), construct=construct, loc=loc)
     # only wrappers elsewhere in id_star / idc_star: census of leaf builders in the two modules
     builders = []
     for q in (f"{ID}.id_star", f"{ID}.idc_star"):
